@@ -79,7 +79,7 @@ def main():
         print("cannot load the real history_comparisons.py:", repr(e))
         return 3
     n = bad = bad_raise_only = 0
-    first_raise = first_missed = None
+    first_raise = first_missed = first_spurious = None
     missed = spurious = 0
     vout = report = None
     if "--violation-out" in sys.argv:
@@ -112,7 +112,10 @@ def main():
             if first_missed is None:
                 first_missed = c
         if got is True and obj == "unaltered":
+            # ... or reports a change although every consumed output has the hash it had: needless re-execution (C04)
             spurious += 1
+            if first_spurious is None:
+                first_spurious = c
         if got != c["expect"]:
             bad += 1
             # the real code RAISES on an edge comparison for which the model has an answer: in production
@@ -130,7 +133,7 @@ def main():
     if report:
         with open(report, "w") as f:
             json.dump({"cases": n, "disagreements": bad, "raises": bad_raise_only, "missed_changes": missed,
-                       "spurious_changes": spurious, "first_raise": first_raise, "first_missed": first_missed}, f, indent=1)
+                       "spurious_changes": spurious, "first_raise": first_raise, "first_missed": first_missed, "first_spurious": first_spurious}, f, indent=1)
     if bad and bad == bad_raise_only and first_raise is not None and vout:
         with open(vout, "w") as f:
             json.dump({"property": "C06", "cmp_case": first_raise, "clause": "comparison-callback-raises",
